@@ -201,7 +201,7 @@ def judge(chk, trace_path, scripts, props, sd, name, extra_sig=None, clauses=Non
     return cnt
 
 
-def run_check(pid, tier, props, plan_list, rule=None, snap=False, extra=None, clauses=None, alias=()):
+def run_check(pid, tier, props, plan_list, rule=None, snap=False, extra=None, clauses=None, alias=(), guards=()):
     chk = vlib.Check(pid, tier)
     sd = vlib.scratch(pid.lower())
     binp = build_lbsim(sd)
@@ -240,6 +240,21 @@ def run_check(pid, tier, props, plan_list, rule=None, snap=False, extra=None, cl
             for s in sc2:
                 chk.count_case([s["cfg"]["strategy"], len(s["steps"]), s["id"]])
             judge(chk, tp2, sc2, set(props), sd, "alias-" + name, clauses=clauses)
+        if name in guards:
+            # the same walks with the optional guards switched on (circuit breaker: 2 failures open it for one
+            # tick; rate limiter: 3 tokens, one more per second): requests they turn away are not dispatched,
+            # everything the observer claims about the others is unchanged
+            import copy
+            sc3 = copy.deepcopy(scripts)
+            for s in sc3:
+                s["id"] = "guards-" + s["id"]
+                s["cfg"]["cb"] = {"on": True, "ft": 2, "st": 1, "mr": 1, "iv": 2, "to": 1}
+                s["cfg"]["rl"] = {"on": True, "max": 3, "refill": 1}
+            tp3 = replay(binp, sc3, sd, "guards-" + name)
+            chk.cov["traces_validated_against_impl"] += len(sc3)
+            for s in sc3:
+                chk.count_case([s["cfg"]["strategy"], len(s["steps"]), s["id"]])
+            judge(chk, tp3, sc3, set(props), sd, "guards-" + name, clauses=clauses)
         if scripts:
             chk.sample({"plan": name, "script": scripts[0]["id"], "strategy": scripts[0]["cfg"]["strategy"],
                         "steps": scripts[0]["steps"][:10], "events": segment(tp, scripts[0]["id"])[1:9]}, limit=6)
